@@ -17,3 +17,4 @@ def run(ck):
     sampling.r7_neighbour_before_repeat(ck, P)
     sampling.r8_rotation_tiles(ck, P)
     sampling.r9_signed_projective_division(ck, P)
+    sampling.r10_transform_flags(ck, P)
